@@ -18,6 +18,7 @@ type Event struct {
 	Kind  string `json:"kind"`
 	Name  string `json:"name,omitempty"`
 	N     int    `json:"n,omitempty"`
+	From  int    `json:"from,omitempty"`
 	Value uint64 `json:"value"`
 }
 
@@ -133,18 +134,7 @@ func RunReplay(fns map[string]func()) {
 		defer close(done)
 		defer func() {
 			if p := recover(); p != nil {
-				switch p := p.(type) {
-				case AssertFailure:
-					outcome = "assert:" + p.Label
-				case AssumeViolated:
-					outcome = "assume-violated"
-				case ReplayExhausted:
-					outcome = "replay-exhausted:" + p.Want
-				case error:
-					outcome = "panic:" + p.Error()
-				default:
-					outcome = fmt.Sprintf("panic:%v", p)
-				}
+				outcome = outcomeOf(p)
 			}
 		}()
 		f()
@@ -154,8 +144,10 @@ func RunReplay(fns map[string]func()) {
 	case <-time.After(20 * time.Second):
 		outcome = "hang"
 	}
-	fmt.Printf("VERIF-REPLAY-OUTCOME: %s\n", outcome)
+	finish(outcome)
 }
+
+// Sync, Go, Yield, WaitAll: see threads.go.
 
 // Cover marks a situation the harness must be able to reach (vacuity guard).
 func Cover(label string) {}
@@ -224,133 +216,3 @@ func AssertNoLocksHeld(label string) {}
 // ExpectDeadlock declares that the rest of the path may deadlock (engine only).
 func ExpectDeadlock() {}
 
-// ---- threads (native: turnstile following the recorded schedule) ----
-
-type thread struct {
-	id   int
-	wake chan struct{}
-	done bool
-}
-
-var (
-	tmu      sync.Mutex
-	threads  []*thread
-	current  int
-	twg      sync.WaitGroup
-	hang     = make(chan string, 1)
-)
-
-// Go starts a harness thread. Natively threads run one at a time and hand over
-// at Yield / blocking points in the recorded order (best effort).
-func Go(f func()) {
-	tmu.Lock()
-	if len(threads) == 0 {
-		threads = append(threads, &thread{id: 0, wake: make(chan struct{}, 1)})
-	}
-	t := &thread{id: len(threads), wake: make(chan struct{}, 1)}
-	threads = append(threads, t)
-	tmu.Unlock()
-	twg.Add(1)
-	go func() {
-		defer twg.Done()
-		<-t.wake
-		defer func() {
-			t.done = true
-			p := recover()
-			handoff(t.id)
-			if p != nil {
-				panic(p)
-			}
-		}()
-		f()
-	}()
-	Yield()
-}
-
-func nextSched() (int, bool) {
-	mu.Lock()
-	defer mu.Unlock()
-	if replay == nil {
-		return 0, false
-	}
-	for pos < len(replay.Events) {
-		e := replay.Events[pos]
-		if e.Kind != "sched" {
-			return 0, false
-		}
-		pos++
-		return int(e.Value), true
-	}
-	return 0, false
-}
-
-func runnableExcept(self int, includeSelf bool) []*thread {
-	var r []*thread
-	if includeSelf {
-		r = append(r, threads[self])
-	}
-	for _, t := range threads {
-		if t.id != self && !t.done {
-			r = append(r, t)
-		}
-	}
-	return r
-}
-
-// Yield is a scheduling point.
-func Yield() {
-	tmu.Lock()
-	if len(threads) <= 1 {
-		tmu.Unlock()
-		return
-	}
-	self := current
-	r := runnableExcept(self, true)
-	k, ok := nextSched()
-	if !ok || k >= len(r) || r[k].id == self {
-		tmu.Unlock()
-		return
-	}
-	nxt := r[k]
-	current = nxt.id
-	tmu.Unlock()
-	nxt.wake <- struct{}{}
-	<-threads[self].wake
-}
-
-func handoff(self int) {
-	tmu.Lock()
-	r := runnableExcept(self, false)
-	if len(r) == 0 {
-		tmu.Unlock()
-		return
-	}
-	k, ok := nextSched()
-	if !ok || k >= len(r) {
-		k = 0
-	}
-	nxt := r[k]
-	current = nxt.id
-	tmu.Unlock()
-	nxt.wake <- struct{}{}
-}
-
-// WaitAll blocks the main thread until all harness threads finished; it
-// reports a hang (deadlock) after the watchdog interval.
-func WaitAll() {
-	tmu.Lock()
-	if len(threads) == 0 {
-		tmu.Unlock()
-		return
-	}
-	tmu.Unlock()
-	done := make(chan struct{})
-	go func() { twg.Wait(); close(done) }()
-	// hand the baton away while waiting
-	go handoff(0)
-	select {
-	case <-done:
-	case <-time.After(10 * time.Second):
-		panic("verifrt: threads did not finish (deadlock)")
-	}
-}
